@@ -212,6 +212,7 @@ def check(ctx):
                     n_scan += 1
                     own = list(bp.events)
                     tested = any(x.kind == "MEMBER" for x in own) or any(x.kind == "LOOP" for x in own) or any(
+                        x.kind == "COMP" and x.a.get("consumer") == "any" for x in own) or any(
                         x.kind == "ACCUM" and x.a["acc"] in tested_accs and x.a["how"] in ("add", "update") for x in own) or any(
                         isinstance(c.term, tuple) and c.term[:1] == ("cmp",) and c.term[1] in ("==", "!=", "in", "not in")
                         and any(isinstance(sub, tuple) and sub[:1] == ("attr",) and sub[-1] == "msgId" for sub in subterms(c.term))
